@@ -86,7 +86,7 @@ func (r *cfRule) describe(alt int) string {
 // the family, in load order. Every rule but the last can be reached by a comment that an EARLIER rule matched and rejected.
 func cfCatalogue() []cfRule {
 	rules := []cfRule{
-		{group: "cf0", pats: []string{`(?P<tag>[A-Z]+)\(`}, filt: []cfAtom{{"tag", "==", "FIXME"}}, msg: "fixme: $tag in $$"},
+		{group: "cf0", pats: []string{`(?P<tag>[A-Z]+)\(`}, filt: []cfAtom{{"tag", "==", "FIXME"}}, at: "$$", msg: "fixme: $tag in $$"},
 		{group: "cf1", pats: []string{`(?P<tag>[A-Z]+)\((?P<who>\w+)\)`}, filt: []cfAtom{{"who", "~", `^b`}, {"tag", "!=", "HACK"}},
 			msg: "$who holds $tag ($tagx)", sugg: "$tag[$who]"},
 		{group: "cf2", pats: []string{`NOTE\(\w+\)`}, msg: "note: $$"},
